@@ -34,9 +34,11 @@ def find_writer(repo):
             continue
         strs = paren_strings(f, {f.name})
         has_paren = any('(' in x for x in strs) and any(')' in x for x in strs)
-        loops = [n for n in f.node.body if isinstance(n, ast.For)]
+        loops = [n for n in f.node.body if isinstance(n, (ast.For, ast.While))]
         appends = any(isinstance(n, ast.Call) and isinstance(n.func, ast.Attribute) and n.func.attr == 'append' for n in ast.walk(f.node))
-        if has_paren and loops and appends and not f.cls:
+        builds = appends or any(isinstance(n, ast.Subscript) and isinstance(n.ctx, ast.Store) for n in ast.walk(f.node))          # appends tokens, or decorates them in place
+        own_paren = any(isinstance(n, ast.Constant) and isinstance(n.value, str) and ('(' in n.value or ')' in n.value) and len(n.value) <= 4 for n in ast.walk(f.node))
+        if has_paren and loops and builds and not f.cls and (appends or own_paren) and len(f.params) >= 2:
             cands.append(f)
     if len(cands) != 1:
         raise AnalysisError('anchor vanished: tie writer (functions decorating entries with parentheses in a loop: %s)' % [c.qualname for c in cands])
